@@ -859,6 +859,23 @@ pub fn fragment_reuse_family() -> Vec<String> {
     out
 }
 
+/// Object-valued interface fields that the implementers declare with different wrappers / narrower types (`owner`:
+/// strictest implementer first; `backup`: widest first), selected through the interface, with something that tells
+/// the runtime types apart.
+pub fn covariant_implementers_family() -> Vec<String> {
+    let mut out = vec![];
+    for field in ["owner", "backup"] {
+        for sub in ["id", "id name", "__typename id"] {
+            for disc in ["", "__typename", "... on Gist { __typename }", "... on Issue { n }", "... on Repo { stars }", "... on Team { size }", "... on Issue { n } ... on Repo { stars }"] {
+                out.push(format!("query Q {{ owned {{ {field} {{ {sub} }} {disc} }} }}\n"));
+                out.push(format!("query Q {{ owneds {{ {disc} {field} {{ {sub} }} }} }}\n"));
+                out.push(format!("query Q {{ owned {{ ...OF {disc} }} }}\nfragment OF on Owned {{ {field} {{ {sub} }} }}\n"));
+            }
+        }
+    }
+    out
+}
+
 /// A conditional fragment (untyped / typed inline, named spread; `@skip` / `@include` on a variable) whose fields are plain,
 /// aliased to a name the object does not have, or nested, next to a sibling that tells the two assignments of the
 /// variable apart.
@@ -966,6 +983,7 @@ pub fn run(args: &RunArgs, prop: &str) -> i32 {
     let reuse_n = fam.len() - same_key_n;
     fam.extend(type_condition_family());
     fam.extend(conditional_fragment_family());
+    fam.extend(covariant_implementers_family());
     let fam_checked = AtomicU64::new(0);
     crate::explore::par_for(fam.len(), args.threads, |i| {
         let text = &fam[i];
